@@ -47,6 +47,7 @@ type frameObs struct {
 	Type     int    `json:"type"`
 	Code     int    `json:"code"`
 	MAC      string `json:"mac,omitempty"`
+	Scan     string `json:"scan,omitempty"`
 	VendorOK bool   `json:"vendor_ok"`
 }
 
@@ -81,6 +82,7 @@ func (method) Packets(ctx context.Context, r *scan.Range) <-chan *packet.BufferD
 }
 
 type rec struct {
+	scan            string
 	ip, mac, flags  string
 	port, ttl, t, c int
 	vendorOK        bool
@@ -130,25 +132,108 @@ func (l *logger) LogResults(ctx context.Context, results <-chan scan.Result) {
 
 // key of the record a frame would produce: source address (+ source port for TCP); "" if the frame has
 // not even the fixed layout
-func frameKey(w lib.Wiring, f []byte) (string, int) {
-	if w.Filter == 3 {
+func frameKeyLink(filter int, tun bool, f []byte) (string, int) {
+	nl := 14
+	if tun {
+		nl = 0
+	}
+	if filter == 3 {
 		if len(f) < 32 {
 			return "", 0
 		}
 		return net.IP(f[28:32]).String(), 0
 	}
-	if len(f) < 34 {
+	if len(f) < nl+20 {
 		return "", 0
 	}
-	ip := net.IP(f[26:30]).String()
-	if w.Filter <= 1 {
-		o := 14 + int(f[14]&15)*4
+	ip := net.IP(f[nl+12 : nl+16]).String()
+	if filter <= 1 {
+		o := nl + int(f[nl]&15)*4
 		if len(f) < o+2 {
 			return ip, -1
 		}
 		return ip, int(binary.BigEndian.Uint16(f[o:]))
 	}
 	return ip, 0
+}
+
+func frameKey(w lib.Wiring, f []byte) (string, int) { return frameKeyLink(w.Filter, false, f) }
+
+// frameRec: the record a frame would produce if it were reported (fixed layout assumed)
+func frameRec(filter int, tun bool, f []byte) (x rec, ok bool) {
+	ip, port := frameKeyLink(filter, tun, f)
+	if ip == "" || port < 0 {
+		return x, false
+	}
+	x.ip, x.port = ip, port
+	nl := 14
+	if tun {
+		nl = 0
+	}
+	switch {
+	case filter == 3:
+		if len(f) < 28 {
+			return x, false
+		}
+		x.mac = net.HardwareAddr(f[22:28]).String()
+	case filter == 2:
+		o := nl + int(f[nl]&15)*4
+		if len(f) < o+2 {
+			return x, false
+		}
+		x.ttl, x.t, x.c = int(f[nl+8]), int(f[o]), int(f[o+1])
+	default:
+		o := nl + int(f[nl]&15)*4
+		if len(f) < o+14 {
+			return x, false
+		}
+		fl := int(f[o+12]&1)<<8 | int(f[o+13])
+		for _, bc := range []struct {
+			b int
+			c byte
+		}{{1, 's'}, {4, 'a'}, {0, 'f'}, {2, 'r'}, {3, 'p'}, {5, 'u'}, {6, 'e'}, {7, 'c'}, {8, 'n'}} {
+			if fl>>uint(bc.b)&1 == 1 {
+				x.flags += string(bc.c)
+			}
+		}
+	}
+	return x, true
+}
+
+// matchRecords assigns the records observed between the sentinels to the injected frames, in order: first
+// the next frame whose own fields equal the record's, else the next frame with the record's address (and port).
+func matchRecords(c *caseOut, filter int, tun bool, between []rec) {
+	j := 0
+	for _, x := range between {
+		best := -1
+		for pass := 0; pass < 2 && best < 0; pass++ {
+			for k := j; k < len(c.Frames); k++ {
+				if !c.Frames[k].Sent {
+					continue
+				}
+				f, _ := hex.DecodeString(c.Frames[k].Frame)
+				y, ok := frameRec(filter, tun, f)
+				if !ok || y.ip != x.ip || (filter <= 1 && y.port != x.port) {
+					continue
+				}
+				if pass == 0 && !(y.ttl == x.ttl && y.t == x.t && y.c == x.c && y.mac == x.mac && (x.flags == "" || y.flags == x.flags)) {
+					continue
+				}
+				best = k
+				break
+			}
+		}
+		if best < 0 {
+			c.Unmatched = append(c.Unmatched, fmt.Sprintf("%+v", x))
+			continue
+		}
+		o := &c.Frames[best]
+		o.N++
+		o.VM, o.Record = true, true
+		o.IP, o.Port, o.Flags, o.TTL, o.Type, o.Code, o.MAC, o.Scan = x.ip, x.port, x.flags, x.ttl, x.t, x.c, x.mac, x.scan
+		o.VendorOK = true
+		j = best + 1
+	}
 }
 
 type replayIn struct {
@@ -251,7 +336,7 @@ func runCase(id, wi int, w lib.Wiring, r *hlib.SplitMix64, ifa *net.Interface, i
 		o := frameObs{Frame: hex.EncodeToString(f), Class: classes[i]}
 		ip, _ := frameKey(w, f)
 		// (802.1Q-tagged frames are left out: the kernel strips the tag before the socket filter runs)
-		if len(f) >= 14 && len(f) <= 1514 && !lib.IsSentinelHost(ip) && classes[i] != "vlan" {
+		if len(f) >= 14 && len(f) <= 1514 && ip != ipA && ip != ipB && classes[i] != "vlan" {
 			o.Sent = inj.WritePacketData(f) == nil
 		}
 		c.Frames = append(c.Frames, o)
@@ -265,31 +350,7 @@ func runCase(id, wi int, w lib.Wiring, r *hlib.SplitMix64, ifa *net.Interface, i
 	case <-time.After(5 * time.Second):
 		c.Err += " engine-did-not-stop"
 	}
-	// match the records to the frames, in order
-	j := 0
-	for _, x := range between {
-		matched := false
-		for k := j; k < len(c.Frames); k++ {
-			o := &c.Frames[k]
-			if !o.Sent {
-				continue
-			}
-			f, _ := hex.DecodeString(o.Frame)
-			ip, port := frameKey(w, f)
-			if ip == x.ip && (w.Filter > 1 || port == x.port) {
-				o.N++
-				o.VM, o.Record = true, true
-				o.IP, o.Port, o.Flags, o.TTL, o.Type, o.Code, o.MAC = x.ip, x.port, x.flags, x.ttl, x.t, x.c, x.mac
-				o.VendorOK = true
-				j = k
-				matched = true
-				break
-			}
-		}
-		if !matched {
-			c.Unmatched = append(c.Unmatched, fmt.Sprintf("%+v", x))
-		}
-	}
+	matchRecords(&c, w.Filter, false, between)
 	return c
 }
 
@@ -302,7 +363,15 @@ func main() {
 	ifaName := flag.String("ifa", "vc3a", "interface the engine listens on")
 	ifbName := flag.String("ifb", "vc3b", "peer interface the frames are injected on")
 	replay := flag.String("replay", "", "JSON file with explicit cases [{w,subnet,ports,frames}]")
+	cli := flag.String("cli", "", "JSON file with command lines to run through the real RunE (CLI stage)")
+	tunName := flag.String("tun", "vc3t", "tun device for the VPN-mode command lines")
 	flag.Parse()
+	if *cli != "" {
+		w := hlib.NewOut(*out)
+		defer w.Close()
+		runCLIStage(*cli, w, *seed, *ifaName, *ifbName, *tunName)
+		return
+	}
 	var ws []lib.Wiring
 	raw, err := os.ReadFile(*wfile)
 	if err != nil {
